@@ -53,8 +53,8 @@ Layout(e) ==
      THEN PrintT(<<"BLOCKS", Len(blocks), NumLayers(blocks), cfg.comp,
                    IF cfg.comp = "none" THEN (IF pred = e.data_bytes THEN "layout-as-predicted" ELSE "LAYOUT-MISMATCH") ELSE "-">>)
      ELSE IF e.phase = "merge" /\ cfg.comp = "none"
-     THEN PrintT(<<"MERGESHAPE", IF e.data_bytes = pred THEN (IF e.data_bytes = pbytes[2] THEN "both" ELSE "recompress")
-                                 ELSE IF e.data_bytes = pbytes[2] THEN "stack" ELSE "mixed", Len(blocks)>>)
+     THEN \* number of blocks of the merged segment: data = documents + 4 * (documents + blocks)
+          PrintT(<<"MERGED", (e.data_bytes - (pred - 4 * Len(blocks))) \div 4, Len(blocks)>>)
      ELSE TRUE
 
 TSeg ==
